@@ -319,6 +319,14 @@ func (e *MigW) Error() string                 { return e.C.Error() }
 func (e *MigW) Cause() error                  { return e.C }
 func (e *MigW) Format(s fmt.State, verb rune) { errbase.FormatError(e, s, verb) }
 
+// MovedW: a type that kept its name but moved to another import path
+// (repository move, /v2 module path, vendoring): migration registered.
+type MovedW struct{ C error }
+
+func (e *MovedW) Error() string                 { return e.C.Error() }
+func (e *MovedW) Cause() error                  { return e.C }
+func (e *MovedW) Format(s fmt.State, verb rune) { errbase.FormatError(e, s, verb) }
+
 // FEW: errors.Formatter wrapper with detail.
 type FEW struct {
 	Msg string
@@ -452,6 +460,10 @@ func key(e error) errbase.TypeKey { return errbase.GetTypeKey(e) }
 
 func init() {
 	errbase.RegisterTypeMigration("verif/old/path", "oldpkg.oldMigW", (*MigW)(nil))
+	errbase.RegisterTypeMigration("verif/elsewhere/ut", "*ut.MovedW", (*MovedW)(nil))
+	errbase.RegisterWrapperDecoder(key(&MovedW{}), func(_ context.Context, cause error, _ string, _ []string, _ proto.Message) error {
+		return &MovedW{C: cause}
+	})
 	errbase.RegisterWrapperDecoder(key(&MigW{}), func(_ context.Context, cause error, _ string, _ []string, _ proto.Message) error {
 		return &MigW{C: cause}
 	})
@@ -505,3 +517,25 @@ func init() {
 		return &RegMulti{Msg: m.Msg, Es: causes}
 	})
 }
+
+// ProtoW is a wrapper that is itself a protobuf message (as generated RPC
+// error types are): the prefix is a message field, the cause is not. It has
+// no registered encoder or decoder.
+type ProtoW struct {
+	Msg string `protobuf:"bytes,1,opt,name=msg,proto3" json:"msg,omitempty"`
+	C   error  `protobuf:"-" json:"-"`
+}
+
+func (m *ProtoW) Reset()                { *m = ProtoW{} }
+func (m *ProtoW) String() string        { return "msg:" + m.Msg }
+func (*ProtoW) ProtoMessage()           {}
+func (*ProtoW) XXX_MessageName() string { return "verif.ut.ProtoW" }
+func (m *ProtoW) Error() string {
+	if m.C == nil {
+		return m.Msg
+	}
+	return m.Msg + ": " + m.C.Error()
+}
+func (m *ProtoW) Unwrap() error { return m.C }
+
+func init() { proto.RegisterType((*ProtoW)(nil), "verif.ut.ProtoW") }
